@@ -18,9 +18,11 @@ pub mod c15ref;
 pub mod c16;
 pub mod c17;
 pub mod c18;
+pub mod c18api;
 pub mod c19;
 pub mod c19api;
 pub mod c20;
+pub mod c20iter;
 
 /// Print the reference model's and the real parser's view of one case (used by `replay`).
 pub fn show_case(g: &crate::gram::G, input: &[char]) {
